@@ -421,6 +421,9 @@ class Interp:
         return last
 
     def decide_truth(self, v) -> bool:
+        if isinstance(v, TheoryObj) and v.theory in ("symiter", "acc"):
+            # emptiness of a collection of unknown size is not known
+            return self.ctx.flip(f"{v.theory}-nonempty")
         t = pyops.truth(v)
         if isinstance(t, bool):
             return t
@@ -538,6 +541,14 @@ class Interp:
             if isinstance(container, str) and isinstance(item, str):
                 return item in container
             return z3.Contains(pyops.str_z(container), pyops.str_z(item))
+        if isinstance(container, TheoryObj) and container.theory == "symiter":
+            # membership in a collection of unknown content: free, except through designated witnesses
+            r = self.ctx.fresh_bool("in_symiter")
+            it = self.force(item)
+            for w, inlist in container.fields.get("witnesses", []):
+                e = pyops.py_eq(it, w)
+                self.ctx.assume(z3.Implies(pyops.bool_z(e), r == inlist))
+            return r
         if isinstance(container, (TheoryObj, SOpaque)):
             return pyops.truth(self.call_method(container, "__contains__", [item], {}))
         raise Unsupported(f"'in' on {type(container).__name__}")
@@ -773,7 +784,24 @@ class Interp:
         return PList(self._comp(node, env, lambda e: self.eval(node.elt, e)))
 
     def e_GeneratorExp(self, node, env):
+        if len(node.generators) == 1:
+            g = node.generators[0]
+            itv = self.force(self.eval(g.iter, env))
+            if isinstance(itv, TheoryObj) and itv.theory == "symiter":
+                # generator over a collection of unknown size: consumed by any()/all() (see pybuiltins)
+                return TheoryObj("symgen", fields={"node": node, "env": env, "iter": itv})
         return PList(self._comp(node, env, lambda e: self.eval(node.elt, e)))
+
+    def eval_gen_element(self, gen: TheoryObj, item):
+        """value of the generator's element expression for one concrete/symbolic item (None if filtered out)."""
+        node, env = gen.fields["node"], gen.fields["env"]
+        g = node.generators[0]
+        e2 = Env(env.module, parent=env, fn=env.fn)
+        self.assign(g.target, item, e2)
+        for cond in g.ifs:
+            if not self.decide_truth(self.eval(cond, e2)):
+                return _MISSING
+        return self.eval(node.elt, e2)
 
     def e_SetComp(self, node, env):
         src = node.generators[0]
@@ -1704,7 +1732,7 @@ def _kindname(v):
         return "bool"
     if isinstance(v, (int, SInt)):
         return "int"
-    if isinstance(v, (float, SFloat)):
+    if isinstance(v, (float, SFloat)) or type(v).__name__ == "SXReal":
         return "float"
     if isinstance(v, (PList, SSeq)):
         return "list"
